@@ -521,31 +521,41 @@ func commentDescription(src protoreflect.Descriptor) string {
 }
 
 func buildComment(sourceLocation protoreflect.SourceLocation, fallback string) string {
-	allComments := make([]string, 0)
-	if sourceLocation.LeadingComments != "" {
-		allComments = append(allComments, strings.Split(sourceLocation.LeadingComments, "\n")...)
-	}
-	if sourceLocation.TrailingComments != "" {
-		allComments = append(allComments, strings.Split(sourceLocation.TrailingComments, "\n")...)
-	}
-
-	// Trim leading whitespace
-	commentsOut := make([]string, 0, len(allComments))
-	for _, comment := range allComments {
-		comment = strings.TrimSpace(comment)
-		if comment == "" {
-			continue
-		}
-		if strings.HasPrefix(comment, "#") {
-			continue
-		}
-		commentsOut = append(commentsOut, comment)
-	}
+	commentsOut := make([]string, 0)
+	commentsOut = append(commentsOut, commentLines(sourceLocation.LeadingComments)...)
+	commentsOut = append(commentsOut, commentLines(sourceLocation.TrailingComments)...)
 
 	if len(commentsOut) <= 0 {
 		return fallback
 	}
 	return strings.Join(commentsOut, "\n")
+}
+
+// commentLines trims each line of a comment block and drops '#' lines. Blank
+// lines inside the block separate paragraphs and are kept (as one empty line);
+// blank lines at either end of the block are not part of the text.
+func commentLines(block string) []string {
+	if block == "" {
+		return nil
+	}
+	out := make([]string, 0)
+	pendingBreak := false
+	for _, comment := range strings.Split(block, "\n") {
+		comment = strings.TrimSpace(comment)
+		if comment == "" {
+			pendingBreak = len(out) > 0
+			continue
+		}
+		if strings.HasPrefix(comment, "#") {
+			continue
+		}
+		if pendingBreak {
+			out = append(out, "")
+			pendingBreak = false
+		}
+		out = append(out, comment)
+	}
+	return out
 }
 
 type protoFieldExtensions struct {
